@@ -207,6 +207,25 @@ def c20_text_grouped(format_spec=None, want=""):
     return {"violates": bool(bad), "detail": bad}
 
 
+def c20_line_grouped(opts=None, want=()):
+    from flow.record import GroupedRecord, RecordDescriptor
+    from flow.record.adapter.line import LineWriter
+
+    A = RecordDescriptor("c20/a", [("varint", "n"), ("string", "s")])
+    B = RecordDescriptor("c20/b", [("string", "s"), ("varint", "k")])
+    g = GroupedRecord("c20/grp", [A(n=42, s="one", _generated=GEN, _source="first"), B(s="two", k=7, _generated=GEN, _source="second")])
+    fp = io.BytesIO()
+    try:
+        w = LineWriter(fp, **dict(opts or {}))
+        w.write(g)
+        lines = fp.getvalue().decode().splitlines(keepends=True)
+        w.fp = None
+        bad = None if lines[:1] == ["--[ RECORD 1 ]--\n"] and sorted(lines[1:]) == sorted(want) else f"line output {lines!r:.300}, expected the block header and (in some order) {list(want)!r:.300}"
+    except Exception as e:
+        bad = f"raised {type(e).__name__}: {e}"
+    return {"violates": bool(bad), "detail": bad}
+
+
 def c20_text_unset(format_spec, setv=None, rx=".*"):
     import re
 
@@ -311,4 +330,4 @@ def c20_sweep(seed=0, n=120):
     return {"violates": False, "cases": cases}
 
 
-CALLS = {"c20_text_grouped": c20_text_grouped, "c20_text_unset": c20_text_unset, "c20_csv_grouped": c20_csv_grouped, "c20_csv": c20_csv, "c20_csv_read": c20_csv_read, "c20_line": c20_line, "c20_text": c20_text, "c20_total": c20_total, "c20_sweep": c20_sweep}
+CALLS = {"c20_line_grouped": c20_line_grouped, "c20_text_grouped": c20_text_grouped, "c20_text_unset": c20_text_unset, "c20_csv_grouped": c20_csv_grouped, "c20_csv": c20_csv, "c20_csv_read": c20_csv_read, "c20_line": c20_line, "c20_text": c20_text, "c20_total": c20_total, "c20_sweep": c20_sweep}
